@@ -89,7 +89,7 @@ CATALOGUE = [
     ('reify_attributes', 4), ('indicate_branches', 3), ('canonicalize_roles', 2), ('queries', 4), ('or', 4), ('sub', 4),
     ('errors', 3), ('errors_union', 3), ('errors_islands', 2), ('role_algebra', 2), ('node_contexts', 3), ('appears_inverted', 3), ('alignments', 2),
     ('tree_nodes_walk', 2), ('graph_eq', 1), ('codec_api', 3), ('model_reify', 3), ('model_from_dict', 1),
-    ('raising_key', 3),
+    ('raising_key', 3), ('model_copies', 2),
     # derive, then mutate the derived object in place
     ('or_then_ior', 3), ('sub_then_isub', 3), ('copy_then_top', 2), ('configure_then_rearrange', 3),
     ('configure_then_reset_variables', 3), ('or_then_sort', 2), ('indicate_then_ior', 2),
@@ -403,6 +403,41 @@ def run_op(w, op, local):
         layout.rearrange(t2, key=model.alphanumeric_order)
         out.append(t2)
         return out
+    if name == 'model_copies':
+        # a model that went through copy.copy / copy.deepcopy / pickle (what a worker process receives) must
+        # behave exactly like the original: same tables in the same order, same answers
+        import copy as _copy
+        from penman.exceptions import ModelError
+
+        def behaviour(m):
+            out = [[k, [list(e) for e in v]] for k, v in m.reifications.items()]
+            out.append([[digest.canon_atom(k), [list(e) for e in v]] for k, v in m.dereifications.items()])
+            out.append([m.top_role, m.concept_role, m.top_variable, list(m.roles), list(m.normalizations.items())])
+            for role, specs in list(m.reifications.items()):
+                for concept, srole, trole in specs:
+                    for args in (((('n9', ':instance', concept), ('n9', srole, 'x'), ('n9', trole, 'y'))),
+                                 ((('n9', ':instance', concept), ('n9', trole, 'y'), ('n9', srole, 'x')))):
+                        try:
+                            out.append(list(m.dereify(*args)))
+                        except ModelError as e:
+                            out.append(digest.canon_exc(e))
+                try:
+                    out.append([list(t3) for t3 in m.reify(('x', role, 'y'), {'x', 'y', '_'})])
+                except ModelError as e:
+                    out.append(digest.canon_exc(e))
+            out.append([m.has_role(r) for r in (':ARG0', ':ARG0-of', ':mod-of-of', ':x-of', ':ROOT', ':TOP', ':isa', ':zzz')])
+            return out
+        results = []
+        for mi_, m in enumerate(w.models):
+            base = behaviour(m)
+            for how, mk in (('copy', _copy.copy), ('deepcopy', _copy.deepcopy), ('pickle', _pk)):
+                m2 = mk(m)
+                if behaviour(m2) != base or not (m2 == m):
+                    return ['INVARIANT-BROKEN', 'copied-model-behaves-differently',
+                            {'model': mi_, 'how': how, 'original': _short(base), 'copy': _short(behaviour(m2)),
+                             'equal': bool(m2 == m)}]
+            results.append(digest.sha(base))
+        return results
     if name == 'codec_api':
         # the same calls through a shared PENMANCodec object
         tt = codec.parse(text)
@@ -581,6 +616,10 @@ def _execute(trace, cfg, clients, res, levels=('WARNING', 'WARNING')):
             # process / pickle boundary must give the same result as the argument itself
             reference[op['id']] = result_canon(lambda: run_op(ref_world, dict(op, pickle=False), local))
     ref_after = ref_world.digests()
+    for op_id, val in reference.items():
+        if isinstance(val, list) and val[:1] == ['INVARIANT-BROKEN']:
+            res.violate('process', val[1], op_id=op_id, **val[2])
+            break
 
     lg.setLevel(getattr(logging, levels[1]))
     world = World(trace['world'])
